@@ -83,4 +83,36 @@ def effectsClean (effects : List (String × List Edit)) : Bool :=
 def offenders (effects : List (String × List Edit)) : List String :=
   (effects.filter fun e => !(e.2.all fun ed => ed.safe)).map (·.1)
 
+
+/-! ### temporary in-place edits with restore
+
+The two literal forms the effects translator accepts as "restored" (`translate/gen_C06.py`),
+as functions on the content of the shared array.  `α` is the entry type (floats incl. ±inf,
+nan); only equality with the written constants matters. -/
+
+/-- `x[m] = c` for a boolean mask `m` of the same length (numpy boolean-mask assignment) -/
+def setMask {α : Type} (x : List α) (m : List Bool) (c : α) : List α :=
+  List.zipWith (fun e b => if b then c else e) x m
+
+/-- form 1: `m = flag(x); x[m] = c; …; x[m] = inf` where `flag` is `np.isinf` or `· == np.inf`;
+the mask is computed once, before the first edit -/
+def editRestoreMask {α : Type} (flag : α → Bool) (c inf : α) (x : List α) : List α :=
+  setMask (setMask x (x.map flag) c) (x.map flag) inf
+
+/-- `np.fill_diagonal(x, c)` on a (row-major) matrix -/
+def fillDiagFrom {α : Type} (c : α) : Nat → List (List α) → List (List α)
+  | _, [] => []
+  | i, r :: t => r.set i c :: fillDiagFrom c (i + 1) t
+def fillDiag {α : Type} (c : α) (x : List (List α)) : List (List α) := fillDiagFrom c 0 x
+
+/-- form 2: `np.fill_diagonal(x, a); …; np.fill_diagonal(x, z)` -/
+def editRestoreDiag {α : Type} (a z : α) (x : List (List α)) : List (List α) :=
+  fillDiag z (fillDiag a x)
+
+/-- what the translator emits per restored variable -/
+inductive Restore
+  | maskInf      -- form 1
+  | diagInfZero  -- form 2
+deriving Repr, DecidableEq
+
 end Pyunicorn.Pure
